@@ -34,7 +34,9 @@ func Jobs(run *ev.Run, prop string) []Job {
 	}
 	if !run.Thorough() {
 		return []Job{
-			q(dkgsys.FVSSQ, 3, 1, 0, []int{0}, 2), // Byzantine dealer
+			// Byzantine dealer; plus all 3-deviation scripts over behaviour-class representatives
+			// (cheap for the single-dealer protocol, whose state spaces are ~25x smaller than Joint-Feldman's)
+			func() Job { j := q(dkgsys.FVSSQ, 3, 1, 0, []int{0}, 2); j.TripleReps = true; return j }(),
 			q(dkgsys.FVSSQ, 3, 1, 0, []int{2}, 2), // honest dealer, Byzantine receiver
 			q(dkgsys.FVSSQ, 3, 1, 1, []int{1}, 1), // dealer at another index
 			q(dkgsys.FVSSQ, 4, 1, 0, []int{0}, 1),
